@@ -44,20 +44,28 @@ def run_graphs(ctx, lib, graphs, obs, classes, invariants, maxlen=60, jobs=8):
     import os
     only = [x for x in os.environ.get("VERIF_ONLY", "").split(",") if x]        # development runs
     allclasses = classes
+    pairs_cov = [0, 0]
     for gr in graphs:
         name, c = gr[0], gr[1]
-        classes = gr[2] if len(gr) > 2 else allclasses          # (a graph may name its own object classes)
+        classes = gr[2] if len(gr) > 2 and gr[2] else allclasses          # (a graph may name its own object classes)
         if only and name not in only:
             continue
         res, g = pipeline.model_check(ctx, "MC_Core", name, c, invariants=invariants, properties=PROPS, dump=True)
         tot_states += res.distinct
         tot_trans += res.generated
         rng = random.Random(ctx.seed)
-        if len(gr) > 3 and gr[3] == "pairs":
+        mode = gr[3] if len(gr) > 3 else "edges"
+        if mode == "pairs":
             # every PAIR of consecutive transitions (the model's state does not remember how it was reached)
             walks, cov, tot = pipeline.walker.edge_cover(pipeline.walker.line_graph(g), maxlen=maxlen, rng=rng)
         else:
             walks, cov, tot = g and pipeline.walker.edge_cover(g, maxlen=maxlen, rng=rng)
+            if isinstance(mode, tuple) and mode[0] == "edges+pairs":
+                # all edges, and in addition walks that cover pairs of consecutive transitions (all of them: cap None)
+                w2, c2, t2 = pipeline.walker.edge_cover(pipeline.walker.line_graph(g), maxlen=maxlen, rng=rng, maxwalks=mode[1])
+                walks = walks + w2
+                pairs_cov[0] += c2
+                pairs_cov[1] += t2
         edges_total += tot
         edges_cov += cov
         for cls in classes:
@@ -82,6 +90,8 @@ def run_graphs(ctx, lib, graphs, obs, classes, invariants, maxlen=60, jobs=8):
             if st.samples and len(samples) < 3:
                 samples.append(st.samples[0])
     ctx.coverage["calls_ok_failed_by_action"] = okc
+    if pairs_cov[1]:
+        ctx.coverage["transition_pairs"] = dict(replayed=pairs_cov[0], in_graphs=pairs_cov[1])
     never_ok = sorted(k2 for k2, v2 in okc.items() if v2[0] == 0 and k2 not in ("Reset",))
     if never_ok:
         ctx.notes.append("actions that never succeeded on the implementation in this run: " + ", ".join(never_ok))
@@ -115,7 +125,9 @@ def life_cycle(ctx, lib):
     ctx.coverage["beyond_listed_properties"] = dict(
         module="P11Life", transitions=res.generated, replayed=cov, executions=st.executions, accepted=st.accepted,
         what="C_Initialize argument rules, double initialise / finalise, all 65 entry points before C_Initialize and with a "
-             "missing session handle, the unsupported entry points")
+             "missing session handle, the unsupported entry points; the C_GetSlotList protocol (count, too small buffer, "
+             "initialised tokens first and the uninitialised one last, nothing written behind the count); "
+             "C_GenerateRandom / C_SeedRandom (session handle, exactly n bytes written)")
 
 
 def c03(ctx):
@@ -186,7 +198,7 @@ def c11(ctx):
         graphs = [
             ("c11-stale", consts(Acts='{"sess", "obj", "find", "stale"}', MaxH="3", MaxO="2", LoginPins='{"P1", "P2"}')),
             ("c11-one", consts(Tokens='{"t1"}', Acts='{"sess", "obj", "find"}', MaxH="4", MaxO="2",
-                               LoginPins='{"P1", "P2"}')),
+                               LoginPins='{"P1", "P2"}'), None, ("edges+pairs", 1200)),
             # copies that change kind (token / session, public -> private) and what logout / close do to their handles
             # (the identity tag of a data object cannot be carried over by C_CopyObject: secret keys only)
             ("c11-copy", consts(Tokens='{"t1"}', Acts='{"sess", "obj", "copy"}', MaxH="3", MaxO="2", LoginPins='{"P2"}'),
@@ -198,6 +210,10 @@ def c11(ctx):
             ("c11-stale", consts(Acts='{"sess", "obj", "find", "stale"}', MaxH="4", MaxO="2", LoginPins='{"P1", "P2"}')),
             ("c11-copy", consts(Tokens='{"t1"}', Acts='{"sess", "obj", "copy", "find"}', MaxH="4", MaxO="3",
                                 LoginPins='{"P1", "P2"}')),
+            ("c11-copy-pairs", consts(Tokens='{"t1"}', Acts='{"sess", "obj", "copy"}', MaxH="4", MaxO="2", LoginPins='{"P2"}'),
+             ["secret"], "pairs"),
+            ("c11-one", consts(Tokens='{"t1"}', Acts='{"sess", "obj", "find"}', MaxH="4", MaxO="2",
+                               LoginPins='{"P1", "P2"}'), ["secret"], ("edges+pairs", 30000)),
         ]
         classes = ["secret", "cert"]
     obs = ["rv", "ss", "oo", "id"]
@@ -291,7 +307,7 @@ def c19(ctx):
     res, _ = pipeline.model_check(ctx, "MC_Core", "c19-wide", wide, invariants=INV_OBJ, properties=PROPS, timeout=3000)
     graphs = [
         ("c19-all1", consts(Tokens='{"t1"}', Acts='{"sess", "obj", "find"}', MaxH="3" if quick else "5", MaxO="2",
-                            Labels='{"a", "e"}', Templates=T8, **common)),
+                            Labels='{"a", "e"}', Templates=T8, **common), None, ("edges+pairs", 1200 if quick else 30000)),
         ("c19-all2", consts(Acts='{"sess", "obj", "find"}', MaxH="3" if quick else "4", MaxO="2", Labels='{"a", "e"}',
                             Templates='{{}, {"a"}, {"e"}, {"priv"}}', **common)),
         ("c19-batch", consts(Tokens='{"t1"}', Acts='{"sess", "obj", "findop"}', MaxH="3" if quick else "4",
